@@ -3,17 +3,21 @@ Engine E: in-memory file system with a durability model, crash after every opera
 META = dict(
     engine="vfs", level="fault_enumeration",
     technique="configuration grid x crash after every file-system operation x every admissible loss pattern of unsynced data, "
-              "on a real Logger+Log (rule always, counter stream) driven through its runner generator on an in-memory file system",
+              "on a real Logger+Log(s) (always counter streams and sparse once/update/change streams) driven through its runner "
+              "generator on an in-memory file system",
     text="Every combination of keep {0,1,2,3} x cycle period {0,1,2 ticks} x size threshold {0, header+1 record, header+3 records} x "
          "flush period {2,3 ticks} x reuse x restart {none, STOP/START of the same logger, new logger objects on the same directory} "
          "(plus configurations with two logs in the logger; thorough: more periods, longer stream, logger period 2) runs a counter "
-         "stream through the real Logger.  After every logger "
+         "stream through the real Logger; a second family runs a once/update/change log on a share written at tick 0 and then only at "
+         "tick 5 or never (so the log is silent across whole flush intervals), alone or next to an always log, with no rotation or "
+         "rotation with a cycle period below and above the flush period.  After every logger "
          "send the retained files are read oldest to newest and compared with the rotation oracle; the run's journal then gives the "
          "file-system state after EVERY operation, and for each such crash point every admissible survival pattern of the unsynced bytes "
          "(any prefix, cut at every byte) is materialised and checked: every record written before the most recent completed Log.flush "
          "is still present (unless its copy was rotated out of the oldest slot), records are in order, at most once.",
     note="Durability model is an assumption (directory operations atomic and durable in program order, data durable only after fsync, "
-         "any prefix of unsynced appended bytes may survive); rule always only; filing.ocfn itself is replaced by the double (its contract is "
+         "any prefix of unsynced appended bytes may survive); rules always/once/update/change (promised records of the sparse rules from "
+         "the C22 reference), streak/deck not run here; filing.ocfn itself is replaced by the double (its contract is "
          "modelled, its code is not run); no I/O errors injected; post-crash restart not modelled.",
 )
 import json
@@ -454,6 +458,24 @@ class Run:
                     "flushed records at stake" if anyneed else "no flushed records yet"))
 
 
+NSHARDS = 48          # fixed (not NPROC) so that merged samples do not depend on the machine
+
+
+def work_shard(item):
+    """All configurations idx % NSHARDS == shard, merged into one Part (one result pickle
+    per shard instead of one per configuration)."""
+    shard, tier, midwrite = item
+    out = core.Part()
+    viol = []
+    for idx, cfg in enumerate(configs(tier)):
+        if idx % NSHARDS == shard:
+            p = work((idx, cfg, midwrite))
+            viol.extend(p.extra.pop("viol"))
+            out.merge(p)
+    out.extra["viol"] = viol
+    return out
+
+
 def work(item):
     idx, cfg, midwrite = item
     core.use_repo()
@@ -499,8 +521,7 @@ def run():
     ck = core.Check("C23", "fault_enumeration", META["technique"])
     cfgs = configs(core.TIER)
     midwrite = "all"
-    parts = core.pmap(work, [(i, c, midwrite) for i, c in enumerate(cfgs)],
-                      chunksize=max(1, len(cfgs) // (4 * core.NPROC)))
+    parts = core.pmap(work_shard, [(k, core.TIER, midwrite) for k in range(NSHARDS)])
     allv = sorted((v for p in parts for v in p.extra.pop("viol")), key=lambda v: (v[0], v[1]))
     first = core.Part()
     for group, _k, example, what, rp in allv:
@@ -521,13 +542,17 @@ def run():
         "copy k must hold exactly what the main file held k rotations ago (Logger docstring: keep = number of log copies in rotation)",
         "records are numbered by the logger send that writes them (START, RUN and STOP all log under rule always), so STOP followed by "
         "START at the same values still gives distinct records",
+        "sparse logs (once/update/change) log their own share, written before the logger in the listed ticks with the value tick+1; which "
+        "sends produce a record is taken from the C22 reference model of the statement (checks.c22.Ref)",
         "after a crash only the crash clause of the statement (flushed records present) plus order/at-most-once/no headerless records are "
         "checked; restarting on top of a crashed directory is not modelled",
     ]
     ck.coverage_extra = dict(configurations=len(cfgs), tick=TICK, header_bytes=H, midwrite_cuts=midwrite,
                              ticks_per_run=cfgs[0]["nticks"] if cfgs else 0)
     return ck.finish(
-        rule="configurations (keep x cycle period x size threshold x flush period x reuse x restart kind x one/two logs%s) x crash after every journalled "
+        rule="configurations (keep x cycle period x size threshold x flush period x reuse x restart kind x one/two always logs%s; plus "
+             "sparse rule {once,update,change} x write schedule x {no rotation, cycle period below/above flush period} x alone/with always log) "
+             "x crash after every journalled "
              "VFS operation x every prefix (all byte offsets) of each file's unsynced bytes; evaluations = crash images + clean-state "
              "comparisons; distinct = (configuration, operation index, loss pattern) with at least one unsynced byte lost"
              % (" x logger period" if core.TIER == "thorough" else ""),
